@@ -60,11 +60,13 @@ func (b *Builder) BelongsTo(o interface{}, moduleName string) *BelongsTo {
 }
 
 func (b *Builder) Presence(o interface{}, desc string) {
-	d, valid := o.(*Container)
-	if !valid {
-		b.setErr(fmt.Errorf("%T does not allow presence. Only containers", o))
-	} else {
+	switch d := o.(type) {
+	case *Container:
 		d.presence = desc
+	case *Refine:
+		d.presence = desc
+	default:
+		b.setErr(fmt.Errorf("%T does not allow presence. Only containers", o))
 	}
 }
 
